@@ -98,15 +98,31 @@ func tlvb(code uint16, v []byte) []byte {
 }
 
 func (r *Run) u32() uint32 {
-	switch r.Rng.Intn(5) {
+	switch r.Rng.Intn(6) {
 	case 0:
 		return 0
 	case 1:
 		return 0xffffffff
 	case 2:
 		return uint32(r.Rng.Intn(70000))
+	case 3:
+		return uint32(r.Pick(1, 0x7fffffff, 0x80000000, 0xfffffffe, 0x10000, 0xffff))
 	}
 	return r.Rng.Uint32()
+}
+
+// n16 / n8: numeric field values, often at a boundary
+func (r *Run) n16() int {
+	if r.Rng.Intn(3) == 0 {
+		return r.Pick(0, 1, 0xff, 0x100, 0x7fff, 0x8000, 0xfffe, 0xffff)
+	}
+	return r.Rng.Intn(65536)
+}
+func (r *Run) n8() int {
+	if r.Rng.Intn(3) == 0 {
+		return r.Pick(0, 1, 0x7f, 0x80, 0xfe, 0xff)
+	}
+	return r.Rng.Intn(256)
 }
 
 func (r *Run) blob(max int) []byte {
@@ -184,13 +200,13 @@ func (r *Run) validNames() ([]string, []byte) {
 func (r *Run) genDUID() (dhcpv6.DUID, []byte) {
 	switch r.Rng.Intn(5) {
 	case 0:
-		hw, t, ll := uint16(r.Rng.Intn(65536)), r.u32(), r.blob(20)
+		hw, t, ll := uint16(r.n16()), r.u32(), r.blob(20)
 		return &dhcpv6.DUIDLLT{HWType: iana.HWType(hw), Time: t, LinkLayerAddr: ll}, append(append(append(w16(1), w16(int(hw))...), w32(t)...), ll...)
 	case 1:
 		en, id := r.u32(), r.blob(20)
 		return &dhcpv6.DUIDEN{EnterpriseNumber: en, EnterpriseIdentifier: id}, append(append(w16(2), w32(en)...), id...)
 	case 2:
-		hw, ll := uint16(r.Rng.Intn(65536)), r.blob(20)
+		hw, ll := uint16(r.n16()), r.blob(20)
 		return &dhcpv6.DUIDLL{HWType: iana.HWType(hw), LinkLayerAddr: ll}, append(append(w16(3), w16(int(hw))...), ll...)
 	case 3:
 		u := r.Bytes(16)
@@ -297,7 +313,7 @@ func (r *Run) genOptCode(c uint16, depth int) gnode {
 		var w []byte
 		seen := map[int]bool{}
 		for k := r.Rng.Intn(6); k > 0; k-- {
-			x := r.Rng.Intn(65536)
+			x := r.n16()
 			if seen[x] {
 				continue
 			}
@@ -307,13 +323,13 @@ func (r *Run) genOptCode(c uint16, depth int) gnode {
 		}
 		return gnode{w, dhcpv6.OptRequestedOption(codes...), c}
 	case 8:
-		v := r.Rng.Intn(65536)
+		v := r.n16()
 		return gnode{w16(v), dhcpv6.OptElapsedTime(time.Duration(v) * 10 * time.Millisecond), c}
 	case 9:
 		m, w := r.genMsg(depth-1, 3)
 		return gnode{w, dhcpv6.OptRelayMessage(m), c}
 	case 13:
-		sc, msg := r.Rng.Intn(65536), r.blob(30)
+		sc, msg := r.n16(), r.blob(30)
 		return gnode{append(w16(sc), msg...), &dhcpv6.OptStatusCode{StatusCode: iana.StatusCode(sc), StatusMessage: string(msg)}, c}
 	case 15, 16:
 		var items [][]byte
@@ -333,7 +349,7 @@ func (r *Run) genOptCode(c uint16, depth int) gnode {
 		var subs dhcpv6.Options
 		w := w32(en)
 		for k := r.Rng.Intn(4); k > 0; k-- {
-			sc, d := uint16(r.Rng.Intn(65536)), r.blob(20)
+			sc, d := uint16(r.n16()), r.blob(20)
 			subs = append(subs, &dhcpv6.OptionGeneric{OptionCode: dhcpv6.OptionCode(sc), OptionData: d})
 			w = append(w, tlvb(sc, d)...)
 		}
@@ -379,7 +395,7 @@ func (r *Run) genOptCode(c uint16, depth int) gnode {
 		en, id := r.u32(), r.blob(30)
 		return gnode{append(w32(en), id...), &dhcpv6.OptRemoteID{EnterpriseNumber: en, RemoteID: id}, c}
 	case 39:
-		fl := byte(r.Rng.Intn(256))
+		fl := byte(r.n8())
 		names, w := r.validNames()
 		return gnode{append([]byte{fl}, w...), &dhcpv6.OptFQDN{Flags: fl, DomainName: &rfc1035label.Labels{Labels: names}}, c}
 	case 56:
@@ -424,7 +440,7 @@ func (r *Run) genOptCode(c uint16, depth int) gnode {
 		var as []iana.Arch
 		var w []byte
 		for k := 1 + r.Rng.Intn(3); k > 0; k-- {
-			x := r.Rng.Intn(65536)
+			x := r.n16()
 			as = append(as, iana.Arch(x))
 			w = append(w, w16(x)...)
 		}
@@ -433,7 +449,7 @@ func (r *Run) genOptCode(c uint16, depth int) gnode {
 		b := r.Bytes(3)
 		return gnode{b, &dhcpv6.OptNetworkInterfaceID{Typ: dhcpv6.NetworkInterfaceType(b[0]), Major: b[1], Minor: b[2]}, c}
 	case 79:
-		hw, a := r.Rng.Intn(65536), r.blob(20)
+		hw, a := r.n16(), r.blob(20)
 		return gnode{append(w16(hw), a...), dhcpv6.OptClientLinkLayerAddress(iana.HWType(hw), net.HardwareAddr(a)), c}
 	case 87:
 		a := r.randPkt(r.randOpts(3, 300))
@@ -451,7 +467,7 @@ func (r *Run) genOptCode(c uint16, depth int) gnode {
 		o.Options = os
 		return gnode{ow, o, c}
 	case 98:
-		p4l, p6l, ea := r.Rng.Intn(33), r.Rng.Intn(129), byte(r.Rng.Intn(256))
+		p4l, p6l, ea := r.Rng.Intn(33), r.Rng.Intn(129), byte(r.n8())
 		wkp := r.Rng.Intn(2) == 0
 		p4, p6 := r.Bytes(4), r.Addr16()
 		fl := byte(0)
@@ -465,20 +481,20 @@ func (r *Run) genOptCode(c uint16, depth int) gnode {
 			EABitsLength: ea, WKPAuthorized: wkp}, c}
 	case 99:
 		hub := r.Rng.Intn(2) == 0
-		pmtu := r.Rng.Intn(65536)
+		pmtu := r.n16()
 		o := &dhcpv6.Opt4RDNonMapRule{HubAndSpoke: hub, DomainPMTU: uint16(pmtu)}
 		fl, tcv := byte(0), byte(0)
 		if hub {
 			fl |= 0x80
 		}
 		if r.Rng.Intn(2) == 0 {
-			tcv = byte(r.Rng.Intn(256))
+			tcv = byte(r.n8())
 			o.TrafficClass = &tcv
 			fl |= 1
 		}
 		return gnode{append([]byte{fl, tcv}, w16(pmtu)...), o, c}
 	case 135:
-		p := r.Rng.Intn(65536)
+		p := r.n16()
 		return gnode{w16(p), dhcpv6.OptRelayPort(uint16(p)), c}
 	}
 	// unknown code: payload verbatim
@@ -540,7 +556,7 @@ func (r *Run) genMsg(depth, maxOpts int) (dhcpv6.DHCPv6, []byte) {
 	os, ow := r.genOpts(depth, maxOpts)
 	if r.Rng.Intn(3) == 0 {
 		t := byte(12 + r.Rng.Intn(2))
-		hop := byte(r.Rng.Intn(256))
+		hop := byte(r.n8())
 		l, p := r.Addr16(), r.Addr16()
 		m := &dhcpv6.RelayMessage{MessageType: dhcpv6.MessageType(t), HopCount: hop, LinkAddr: net.IP(l), PeerAddr: net.IP(p)}
 		m.Options.Options = os
